@@ -21,7 +21,7 @@ type genTextOpts struct {
 	longLine          bool
 }
 
-var gtWS = []string{" ", " ", " ", "\t", "  ", " \t", " ", " ", "\t\t ", "\v", "\f"}
+var gtWS = []string{" ", " ", " ", "\t", "  ", " \t", " ", " ", "\t\t ", "\v", "\f", "  ", "\t ", "  ", "  \t", "　", "\r ", " "}
 var gtKeys = []string{"a", "goos", "pkg", "k-1", "é", "ключ", "x/y", "a.b", "cpu", "b", "a\x00b", "z\xff", "unit", "benchmark", "u"}
 var gtVals = []string{"1", "2", "linux", "darwin", "Intel(R) Core(TM) i7", "x  y", "v:1", "é世", "a\tb", "key: value", "Benchmark", "-", "0", "trail  ", "\xffbad", "a b", "BenchmarkX 1 1 ns/op", "Unit ns/op a=b"}
 var gtSeps = []string{": ", ": ", ":\t", ":  ", ": \t ", ":\t\t"}
